@@ -32,7 +32,7 @@ def conversions_harness():
         if len(ms) != 1: raise core.BuildError('C13 K3: expected exactly one external matching %s, found %d' % (pat, len(ms)))
         return 'F_' + core.cname(ms[0])
     d = {'INS_AGG': m.group(1), 'SET_INSERT': one(r'^_ZNSt3setISt10shared_ptrIN10chaiscript6detail20Type_Conversion_BaseEE\w+6insertERKS4_$'), 'TYPES_INSERT': one(r'^_ZNSt3setIPKSt9type_info\w+6insertESt16initializer_list'),
-         'CACHE_SLOT': one(r'_Map_baseImSt4pairIKmSt3setIPKSt9type_info'), 'TREE_ASSIGN': one(r'^_ZNSt8_Rb_treeIPKSt9type_info\w+aSERKS9_$'), 'SET_COUNT_FN': one(r'^_ZNKSt3setIPKSt9type_info\w+5countERKS2_$'),
+         'CACHE_SLOT': ([('F_' + core.cname(e)) for e in ext if re.search(r'_Map_baseImSt4pairIKmSt3setIPKSt9type_info', e)] + ['unused_cache_slot'])[0], 'TREE_ASSIGN': one(r'^_ZNSt8_Rb_treeIPKSt9type_info\w+aSERKS9_$'), 'SET_COUNT_FN': one(r'^_ZNKSt3setIPKSt9type_info\w+5countERKS2_$'),
          'E_ADD': core.csym(FAM, K3_ROOTS[0]), 'E_HAS': core.csym(FAM, K3_ROOTS[1]), 'E_GET': core.csym(FAM, K3_ROOTS[2]), 'E_CACHE': core.csym(FAM, K3_ROOTS[3]), 'E_CONVERTS': core.csym(FAM, K3_ROOTS[4]),
          'VERIF_STRCMP_BY_IDENTITY': 1, 'STRING_LITERALS_OPAQUE': 1}
     W = {1: ('witness: duplicate rejected', 'witness: registered with new types', 'witness: registered, types known'), 2: ('witness: found', 'witness: not found'), 3: ('witness: found', 'witness: not found'),
